@@ -21,7 +21,7 @@ from vlib import gen
 
 PID = "C11"
 GEN = []
-LEAN = ["Ymq.Props.C11", "Ymq.Props.C11Walk"]
+LEAN = ["Ymq.Props.C11", "Ymq.Props.C11Walk", "Ymq.Props.C11Total"]
 AUDIT = "Ymq.Audit.C11"
 THEOREMS = ["Ymq.C11." + t for t in (
     "verify_sound combine_valid combine_undivisible unpack_pack normFactors_prod unpack_pack_verify "
@@ -29,7 +29,8 @@ THEOREMS = ["Ymq.C11." + t for t in (
     "kernel_step_proper verify_false_negative doubles_disjoint_add doubles_disjoint pack_total add_no_panic "
     "add_inv2 history_no_panic walk_root_max final_step_proper cycles_tail_even try_factor_unreduced_panics above_512_bits_counterexample combine_double_eq_step walk_stack_eq_rec add_stack_eq_add "
     "add_inv_stack history_inv_stack cycles_valid_stack doubles_disjoint_stack add_no_panic_stack "
-    "history_no_panic_stack walk_iter_bound walk_iter_bound_contract add_stack_of_add history_stack_eq_rec").split()]
+    "history_no_panic_stack walk_iter_bound walk_iter_bound_contract add_stack_of_add history_stack_eq_rec "
+    "cyclelen_bounded history_no_overflow history_total history_total_stack").split()]
 PROFILES = ["release", "chk"]
 TIMEOUT = 60.0
 RULE = ("first, in both tiers, a deterministic boundary family: histories, verify, combine, try_factor and final_combine with n = p1*p2 of exactly 63, 64, 65, 127, "
@@ -1048,7 +1049,10 @@ CLAIM = ("For every modulus n <= 2^512 (the code's own limit: 8 packed words, 10
          "branch tag and the final store, recorded add histories and final_step calls of real siqs/mpqs/qs runs, and final_step on "
          "constructed relation sets (empty, all-trivial kernels, few/many dependencies, > 5000 columns = block Lanczos) with the real "
          "kernel handed to the model; a Python oracle re-checks every published relation, the final store and every returned divisor.")
-LEVEL_NOTE = ("The store theorems are proved for the recursive formulation and transported to the explicit-stack model that mirrors "
+LEVEL_NOTE = ("On the domain of at most 2^32 adds of inputs with cycle length 1 and exponent sums below 2^30 the u64 counters cannot "
+              "overflow (history_no_overflow) and histories inside the callers' contract are total (history_total, "
+              "history_total_stack); outside that domain add_no_panic excludes everything but the counter overflow. "
+              "The store theorems are proved for the recursive formulation and transported to the explicit-stack model that mirrors "
               "the code (history_inv_stack, cycles_valid_stack, doubles_disjoint_stack, history_no_panic_stack; walk_iter_bound is the "
               "closed-form iteration bound of the explicit-stack loop). Domain: n <= 2^512 for the store theorems (stated hypothesis; real stores have n*k < 2^508); add_no_panic excludes only u64 "
               "counter overflow; stack depth is outside the model (explicit stack in the code since fix e402536, exercised up to 20000 links). "
